@@ -67,6 +67,13 @@ class GenericSystemRegistry(
         super()._init_dynamic_classes()
         self.System = create_class_with_registry(self, objects.System)
 
+    def __deepcopy__(self, memo):
+        new = super().__deepcopy__(memo)
+        # see GenericGroupRegistry.__deepcopy__
+        for system in new._systems.values():
+            system.__class__ = new.System
+        return new
+
     def _after_init(self) -> None:
         """Invoked at the end of ``__init__``.
 
